@@ -329,7 +329,7 @@ func c15LocateGuards(f gts.Feature, x gts.Region, L int, lines *[]string) (locs 
 				}
 				locs = append(locs, p)
 			}
-			off += y.Len()
+			off += c15ResLen(y)
 		}
 	}
 	return locs
@@ -385,13 +385,13 @@ func c15ExtractFeatures(r *Run, c c15Case, line string, regs []gts.Region, outs 
 		switch {
 		case rot && len(st) > 1:
 			r.count("feature-oracle/extract/composite-region-with-a-part-across-the-origin")
-		case rot && x.Tail() < x.Head():
+		case rot && c15Tail(x) < c15Head(x):
 			r.count("feature-oracle/extract/backward-segment-across-the-origin")
 		case rot:
 			r.count("feature-oracle/extract/forward-segment-across-the-origin")
 		case len(st) > 1:
 			r.count("feature-oracle/extract/composite-region")
-		case len(st) == 1 && x.Tail() < x.Head():
+		case len(st) == 1 && c15Tail(x) < c15Head(x):
 			r.count("feature-oracle/extract/backward-segment")
 		default:
 			r.count("feature-oracle/extract/forward-segment")
@@ -417,7 +417,7 @@ func c15SplitCircularFeatures(r *Run, c c15Case, line string, rr gts.Regions, ou
 	var wins []win
 	switch {
 	case len(rr) == 1:
-		wins = []win{{rr[0].Head(), rr[0].Head(), true}}
+		wins = []win{{c15Head(rr[0]), c15Head(rr[0]), true}}
 		r.count("feature-oracle/split-circular/one-region")
 	case len(cuts) == 1:
 		wins = []win{{cuts[0], cuts[0], true}}
